@@ -75,6 +75,9 @@ where
         + Send
         + 'static,
 {
+    // a configuration from which no codec can be built (for instance a malformed user id) is a start-up error,
+    // not something to find out when the first connection arrives
+    new_codec(context.as_ref())?;
     let listener = TcpListener::bind(format!("{}:{}", config.host, config.port)).await?;
     info!("Tcp server running => {}|{}|{}:{}", config.protocol, config.cipher, config.host, config.port);
     match (&config.ssl, &config.ws) {
